@@ -1,3 +1,4 @@
+mod geocorr;
 mod golden;
 mod idcorr;
 mod search;
@@ -9,7 +10,20 @@ use std::fs;
 use std::io::Write;
 
 /// write correspondence shards + meta for an ID-layer property
-fn write_cases(prop: &str, cases: &[idcorr::Case], outdir: &str, module: &str) {
+pub struct GenCase {
+    pub coq: String,
+    pub desc: String,
+    pub kind: String,
+}
+
+fn id_cases(cases: &[idcorr::Case]) -> Vec<GenCase> {
+    cases
+        .iter()
+        .map(|c| GenCase { coq: c.coq(), desc: c.desc(), kind: format!("{}:{}", c.kind(), c.outcome()) })
+        .collect()
+}
+
+fn write_cases(prop: &str, cases: &[GenCase], outdir: &str, module: &str) {
     fs::create_dir_all(outdir).unwrap();
     // remove stale shards of this property
     for e in fs::read_dir(outdir).unwrap().flatten() {
@@ -36,7 +50,7 @@ fn write_cases(prop: &str, cases: &[idcorr::Case], outdir: &str, module: &str) {
         cur.clear();
     };
     for (k, c) in cases.iter().enumerate() {
-        let t = c.coq();
+        let t = c.coq.clone();
         if cur_bytes + t.len() > budget && !cur.is_empty() {
             flush(&mut cur, first, &mut shards);
             first = k;
@@ -50,12 +64,12 @@ fn write_cases(prop: &str, cases: &[idcorr::Case], outdir: &str, module: &str) {
     let mut kinds: BTreeMap<String, usize> = BTreeMap::new();
     let mut distinct = std::collections::HashSet::new();
     for c in cases {
-        *kinds.entry(format!("{}:{}", c.kind(), c.outcome())).or_insert(0) += 1;
-        distinct.insert(c.coq());
+        *kinds.entry(c.kind.clone()).or_insert(0) += 1;
+        distinct.insert(c.coq.clone());
     }
     let mut descs = fs::File::create(format!("{}/cases_{}.descs", outdir, prop)).unwrap();
     for c in cases {
-        let d = c.desc();
+        let d = c.desc.clone();
         let d = if d.len() > 4000 { format!("{}…(truncated)", &d[..4000]) } else { d };
         writeln!(descs, "{}", d.replace('\n', " ")).unwrap();
     }
@@ -79,8 +93,7 @@ fn write_cases(prop: &str, cases: &[idcorr::Case], outdir: &str, module: &str) {
             .step_by(step)
             .take(8)
             .map(|c| {
-                let d = c.desc();
-                let d: String = d.chars().take(300).collect();
+                let d: String = c.desc.chars().take(300).collect();
                 format!("\"{}\"", util::json_escape(&d))
             })
             .collect::<Vec<_>>()
@@ -107,7 +120,9 @@ fn main() {
             let outdir = &args[5];
             let mut rng = util::Rng::new(seed ^ 0xC0_55);
             if let Some(cases) = idcorr::cases_for(prop, &mut rng, thorough) {
-                write_cases(prop, &cases, outdir, "Corr.IdCases");
+                write_cases(prop, &id_cases(&cases), outdir, "Corr.IdCases");
+            } else if let Some((cases, module)) = geocorr::cases_for(prop, &mut rng, thorough) {
+                write_cases(prop, &cases, outdir, module);
             } else {
                 eprintln!("no correspondence generator for {}", prop);
                 std::process::exit(2);
